@@ -1,6 +1,7 @@
 package c20
 
 import (
+	"flag"
 	"fmt"
 	"regexp"
 	"runtime"
@@ -17,9 +18,9 @@ import (
 const hangTick = 10 * time.Second
 
 // After a hang with a culprit inside go9p has been established with the full
-// deadline, rapid re-runs variants of the case to minimise it; those re-runs
-// use a shorter tick (still ~10^5 x the normal latency) so that a red run ends
-// in minutes. The verdict never depends on the short tick.
+// deadline, rapid re-runs the case once to confirm it (and later properties may
+// hang again); those runs use a shorter tick (still ~10^5 x the normal latency)
+// so that a red run ends in minutes. The first verdict never depends on it.
 const hangTickAfterHang = 2 * time.Second
 
 var hangSeen atomic.Bool
@@ -144,8 +145,16 @@ func classifyHang(workerIdx int, call int64, waited time.Duration) outcome {
 		return outcome{inconclusive: msg}
 	}
 	hangSeen.Store(true)
+	// rapid's minimiser checks its time budget only between passes, and every
+	// hanging variant costs seconds: do not minimise cases that hang (hx.Check
+	// sets the flag again for the next property).
+	_ = flag.Set("rapid.shrinktime", "1ns")
 	if len(cs) > 6 {
 		cs = cs[:6]
 	}
-	return outcome{err: fmt.Errorf("call %d of worker %d did not return within %v; goroutines inside go9p (including any left from earlier hung cases):\n%s", call, workerIdx, waited, strings.Join(cs, "\n\n"))}
+	note := ""
+	if waited < 2*hangTick {
+		note = fmt.Sprintf(" (confirmation run; the hang was first established with the full %v deadline)", 2*hangTick)
+	}
+	return outcome{err: fmt.Errorf("call %d of worker %d did not return within %v%s; goroutines inside go9p (including any left from earlier hung cases):\n%s", call, workerIdx, waited, note, strings.Join(cs, "\n\n"))}
 }
